@@ -7,6 +7,7 @@ package ut
 import (
 	"context"
 	"fmt"
+	"os"
 
 	"github.com/cockroachdb/errors/errbase"
 	"github.com/cockroachdb/errors/errorspb"
@@ -61,6 +62,16 @@ type IsLeaf struct{ Msg string }
 
 func (e *IsLeaf) Error() string        { return e.Msg }
 func (e *IsLeaf) Is(target error) bool { return target == error(Sentinel) }
+
+// OsIsLeaf claims, through its Is method, to be os.ErrNotExist and
+// context.DeadlineExceeded while carrying its own text (the way
+// syscall.Errno and net's timeout errors do).
+type OsIsLeaf struct{ Msg string }
+
+func (e *OsIsLeaf) Error() string { return e.Msg }
+func (e *OsIsLeaf) Is(target error) bool {
+	return target == os.ErrNotExist || target == context.DeadlineExceeded
+}
 
 // RegIsLeaf is IsLeaf with a decoder: the Is method survives transfer.
 type RegIsLeaf struct{ Msg string }
